@@ -143,7 +143,7 @@ pub fn run(ctx: &mut Ctx) -> (&'static str, String, bool) {
     }
 
     // ---- packet sequences of every kind with random / adversarial acceptance ----------------------
-    let n = if miri { 2 } else { ctx.tier.pick(600u64, 20_000u64) };
+    let n = if miri { 2 } else { ctx.tier.pick(4_000u64, 200_000u64) };
     let parts: Vec<Part> = (0..n)
         .into_par_iter()
         .map(|i| {
